@@ -157,10 +157,11 @@ ALT = ['absent', 'dir-populated', 'file']
 CMDS = ['put', 'put-dir', 'list', 'restore', 'restore-path', 'empty', 'empty-days', 'empty-dry', 'rm-star', 'rm-exact', 'list-trash-dirs']
 
 
-def _case(top, alt, cmd):
+def _case(top, alt, cmd, root=0):
     with rt.untraced():
-        rt.begin((K.TOP_STATES[top], ALT[alt], CMDS[cmd]))
-        nodes = [W.d('/h'), W.d('/v/d'), W.f('/v/d/x', 'NEW', 0o644, 1000), W.d('/v/d/xd'), W.f('/v/d/xd/in', 'IN', 0o644, 1001),
+        rt.begin((K.TOP_STATES[top], ALT[alt], CMDS[cmd], 'sticky-volume-root' if root else 'plain-volume-root'))
+        # (a volume whose own top directory is sticky, like a tmpfs on /tmp: the sticky test must look at .Trash, not at it)
+        nodes = ([W.d('/v', 0o1777)] if root else []) + [W.d('/h'), W.d('/v/d'), W.f('/v/d/x', 'NEW', 0o644, 1000), W.d('/v/d/xd'), W.f('/v/d/xd/in', 'IN', 0o644, 1001),
                  W.f('/v/keep', 'KEEP', 0o644, 800)]
         tn, real = K.top_state_nodes('/v', top)
         nodes += tn
@@ -187,7 +188,7 @@ def _case(top, alt, cmd):
         }[c]
         m, res = scen.run_model(world, [{'snap': '/'}, step, {'snap': '/'}])
         before, r, after = res
-        label = '%s:cmd=%s' % (K.TOP_STATES[top], c)
+        label = '%s:cmd=%s' % (K.TOP_STATES[top], c) + (':sticky-volume-root' if root else '')
         sec = K.secure(top)
         if r['exc']:
             return rt.fail('C08:traceback:%s:%s' % (r['exc'].split(':')[0], label), r['exc'])
@@ -294,12 +295,12 @@ def w_midrun(k: int, action: int, interactive: bool) -> str:
     return _midrun(rt.sel(k, 200), rt.sel(action, 2), rt.selb(interactive))
 
 
-def w_main(top: int, alt: int, cmd: int) -> str:
+def w_main(top: int, alt: int, cmd: int, root: int) -> str:
     """
-    pre: 0 <= top < 9 and 0 <= alt < 3 and 0 <= cmd < 11
+    pre: 0 <= top < 9 and 0 <= alt < 3 and 0 <= cmd < 11 and 0 <= root < 2
     post: _ == ''
     """
-    return _case(rt.sel(top, 9), rt.sel(alt, 3), rt.sel(cmd, 11))
+    return _case(rt.sel(top, 9), rt.sel(alt, 3), rt.sel(cmd, 11), rt.sel(root, 2))
 
 
 def obligations(tier):
@@ -312,7 +313,7 @@ def obligations(tier):
            stubs=['os.stat(path).st_mode -> bit-vector variable'], bounds='every st_mode of a directory (all 4096 permission values)'),
         CH('W_state_x_alt_x_cmd', MOD, 'w_main', timeout=600, engine='W', regime='selector',
            encodes=K.PUT_FUNCS + K.LIST_FUNCS + K.RESTORE_FUNCS + K.EMPTY_FUNCS + K.RM_FUNCS, stubs=K.STUBS,
-           bounds='9 .Trash states (incl. setgid/setuid without sticky) x 3 .Trash-uid states x 11 command/argument combinations (all five commands)'),
+           bounds='9 .Trash states (incl. setgid/setuid without sticky) x 3 .Trash-uid states x 11 command/argument combinations (all five commands) x volume root plain / sticky'),
         CH('W_put_rechecks_per_argument', MOD, 'w_midrun', timeout=900, engine='W', regime='selector', encodes=K.PUT_FUNCS, stubs=K.STUBS,
            bounds='trash-put a b c (with/without -i); .Trash turns insecure (sticky bit dropped | replaced by a symlink) before system call k, k in 0..199 '
                   '(runs are shorter: checked); an argument whose processing starts after that instant must not land in .Trash/$uid'),
